@@ -492,3 +492,96 @@ Proof.
   apply (dot_score_run expf _ (flat q) (flat k) dim sc (runsq p (mat q)) P E); try reflexivity; try assumption.
   apply (unsqueeze_query q k v m dim p Hax es ps F).
 Qed.
+
+(* ---- composed with the model theorems: statements purely about the interpreted source ------------------ *)
+(* the inputs are legal for a module of size qs: ranks, feature sizes, and the three broadcasts of check_input
+   (a statement about SHAPES only) *)
+Definition legal_input (q k v : tensor Q) (m : option (tensor bool)) (p qs ks : nat) : Prop :=
+  exists es ps, attend_facts q k v m p es ps /\ hd 0 (tshape q) = qs /\ hd 0 (tshape k) = ks.
+
+Lemma legal_attend expf sc q k v m p qs ks :
+  legal_input q k v m p qs ks -> exists out, attend expf sc q k v m p qs ks = Some out.
+Proof.
+  intros [es [ps [F [Hq Hk]]]]. unfold attend.
+  assert (L : legalb q k v p qs ks = true).
+  { unfold legalb. pose proof (af_p _ _ _ _ _ _ _ F). pose proof (af_pk _ _ _ _ _ _ _ F).
+    pose proof (af_qrank _ _ _ _ _ _ _ F). pose proof (af_vrank _ _ _ _ _ _ _ F).
+    repeat (apply andb_true_iff; split); lia. }
+  rewrite L. unfold qu. rewrite (af_es _ _ _ _ _ _ _ F), (af_mask _ _ _ _ _ _ _ F), (af_ps _ _ _ _ _ _ _ F).
+  eexists. reflexivity.
+Qed.
+
+Lemma attend_legal expf sc q k v m p qs ks out :
+  attend expf sc q k v m p qs ks = Some out -> legal_input q k v m p qs ks.
+Proof.
+  intros H. destruct (attend_inv _ _ _ _ _ _ _ _ _ _ H) as [es [ps [F _]]].
+  destruct (attend_heads _ _ _ _ _ _ _ _ _ _ H) as [Hq Hk]. exists es, ps. split; [exact F|split; assumption].
+Qed.
+
+(* reading the returned flat tensor at an in-range index *)
+Lemma read_flat (out : tensor Q) i : valid (rev (shp (flat out))) i -> tat (rd 0%Q (flat out)) i = tat out i.
+Proof. unfold flat. rewrite rshp_mat. apply tat_rd_mat. Qed.
+
+Theorem source_dot_in_kept_range expf sc dim qs q k v m p :
+  (forall x, (0 < expf x)%Q) ->
+  axis_pos dim (List.length (tshape k)) = Some p -> legal_input q k v m p qs qs -> seq_agree k v p ->
+  exists r st,
+    run_forward expf DotCls (self_dot dim qs qs sc) (flat q) (flat k) (flat v) (option_map flat m) = Ok (enc_q r) st /\
+    forall c j lo hi, valid (rev (shp r)) (c :: j) ->
+      (exists t, t < nth p (tshape k) 0 /\ kept_at m (ins (p - 1) t j) = true) ->
+      (forall t, t < nth p (tshape k) 0 -> kept_at m (ins (p - 1) t j) = true ->
+                 (lo <= bget v (c :: ins (p - 1) t j) <= hi)%Q) ->
+      (lo <= tat (rd 0%Q r) (c :: j) <= hi)%Q.
+Proof.
+  intros Hpos Hax Hleg Hagree.
+  destruct (legal_attend expf (score (fun x => x) (Dot sc)) _ _ _ _ _ _ _ Hleg) as [out Hatt].
+  destruct (forward_dot_tie expf (fun x => x) sc dim qs q k v m p out Hax Hatt) as [st Hrun].
+  exists (flat out), st. split; [exact Hrun|].
+  intros c j lo hi Hv Hex Hb. rewrite read_flat by exact Hv.
+  unfold flat in Hv. rewrite rshp_mat in Hv.
+  exact (attention_in_kept_range expf _ q k v m p qs qs out Hpos Hatt Hagree c j lo hi Hv Hex Hb).
+Qed.
+
+Theorem source_dot_blind_to_masked expf sc dim qs q k v k' v' m p :
+  axis_pos dim (List.length (tshape k)) = Some p ->
+  legal_input q k v m p qs qs -> tshape k' = tshape k -> tshape v' = tshape v ->
+  hd 0 (tshape k') = qs -> seq_agree k v p ->
+  exists r r' st st',
+    run_forward expf DotCls (self_dot dim qs qs sc) (flat q) (flat k) (flat v) (option_map flat m) = Ok (enc_q r) st /\
+    run_forward expf DotCls (self_dot dim qs qs sc) (flat q) (flat k') (flat v') (option_map flat m) = Ok (enc_q r') st' /\
+    shp r' = shp r /\
+    forall c j, valid (rev (shp r)) (c :: j) ->
+      (forall t, t < nth p (tshape k) 0 -> kept_at m (ins (p - 1) t j) = true ->
+                 brow k' (ins (p - 1) t j) = brow k (ins (p - 1) t j)
+                 /\ bget v' (c :: ins (p - 1) t j) = bget v (c :: ins (p - 1) t j)) ->
+      (tat (rd 0%Q r') (c :: j) == tat (rd 0%Q r) (c :: j))%Q.
+Proof.
+  intros Hax Hleg Hk' Hv' Hhd Hagree.
+  assert (Hleg' : legal_input q k' v' m p qs qs).
+  { destruct Hleg as [es [ps [F [Hq Hk]]]]. exists es, ps. split; [|split; assumption].
+    destruct F. constructor; rewrite ?Hk', ?Hv'; assumption. }
+  destruct (legal_attend expf (score (fun x => x) (Dot sc)) _ _ _ _ _ _ _ Hleg) as [out Hatt].
+  destruct (legal_attend expf (score (fun x => x) (Dot sc)) _ _ _ _ _ _ _ Hleg') as [out' Hatt'].
+  assert (Hax' : axis_pos dim (List.length (tshape k')) = Some p) by (rewrite Hk'; exact Hax).
+  destruct (forward_dot_tie expf (fun x => x) sc dim qs q k v m p out Hax Hatt) as [st Hrun].
+  destruct (forward_dot_tie expf (fun x => x) sc dim qs q k' v' m p out' Hax' Hatt') as [st' Hrun'].
+  assert (Hsh : tshape out' = tshape out).
+  { destruct (attend_inv _ _ _ _ _ _ _ _ _ _ Hatt) as [es [ps [F ->]]].
+    destruct (attend_inv _ _ _ _ _ _ _ _ _ _ Hatt') as [es' [ps' [F' ->]]].
+    rewrite !memo_shape. cbn [tshape].
+    pose proof (af_es _ _ _ _ _ _ _ F) as E1. pose proof (af_es _ _ _ _ _ _ _ F') as E2.
+    rewrite Hk' in E2. rewrite E1 in E2. injection E2 as <-.
+    pose proof (af_ps _ _ _ _ _ _ _ F) as P1. pose proof (af_ps _ _ _ _ _ _ _ F') as P2.
+    rewrite Hv' in P2. rewrite P1 in P2. injection P2 as <-. reflexivity. }
+  exists (flat out), (flat out'), st, st'. split; [exact Hrun|]. split; [exact Hrun'|].
+  split; [unfold flat; rewrite !shp_mat, Hsh; reflexivity|].
+  intros c j Hv Hsame.
+  assert (Hv2 : valid (tshape out) (c :: j)) by (unfold flat in Hv; rewrite rshp_mat in Hv; exact Hv).
+  rewrite !read_flat by (unfold flat; rewrite rshp_mat, ?Hsh; exact Hv2).
+  exact (attention_blind_to_masked expf _ q k v k' v' m p qs qs out out' Hatt Hatt' Hk' Hv' Hagree c j Hv2 Hsame).
+Qed.
+
+(* attribute names, for statements in files that avoid string literals *)
+Definition attr_dim : string := "dim".
+Definition attr_query_size : string := "query_size".
+Definition attr_key_size : string := "key_size".
